@@ -52,6 +52,9 @@ const (
 
 	// RawSocket header ID.
 	magic = 0x7f
+
+	// closeWriteTimeout is how long Close waits for a write in progress.
+	closeWriteTimeout = 5 * time.Second
 )
 
 // ConnectRawSocketPeer creates a new rawSocketPeer with the specified config,
@@ -189,7 +192,17 @@ func (rs *rawSocketPeer) Close() {
 	// Tell sendHandler to exit, and discard any queued messages. Do not close
 	// wr channel in case there are incoming messages during close.
 	rs.cancelSender()
-	<-rs.writerDone
+	// The send handler may be blocked writing to a client that has stopped
+	// reading. Do not wait for it forever: closing the connection makes its
+	// write fail.
+	timer := time.NewTimer(closeWriteTimeout)
+	select {
+	case <-rs.writerDone:
+		timer.Stop()
+	case <-timer.C:
+		_ = rs.conn.Close()
+		<-rs.writerDone
+	}
 	close(rs.wr)
 	for range rs.wr {
 	}
